@@ -406,6 +406,12 @@ def place_key(p):
     return k
 
 
+def idx_token(iv):
+    if isinstance(iv, tuple) and iv and iv[0] == 'int':
+        return '.[#%d]' % iv[1]
+    return '.[%s]' % abs(hash(repr(iv)))
+
+
 class Path:
     __slots__ = ('blocks', 'env', 'constraints', 'calls', 'exit', 'exit_block', 'asserts', 'writes')
 
@@ -514,7 +520,7 @@ class AbsInt:
                     val = ('downcast', val, e['downcast'])
             elif isinstance(e, dict) and 'index' in e:
                 iv = env.get('_%d' % e['index'], ('local', e['index']))
-                key = key + '.[%r]' % (iv,)
+                key = key + idx_token(iv)
                 val = env.get(key, ('index', val, iv))
             else:
                 key = key + '.?'
@@ -539,7 +545,7 @@ class AbsInt:
                 key = key + '@%s' % e['downcast']
             elif isinstance(e, dict) and 'index' in e:
                 iv = env.get('_%d' % e['index'], ('local', e['index']))
-                key = key + '.[%r]' % (iv,)
+                key = key + idx_token(iv)
             else:
                 key = key + '.?'
         return key
@@ -784,7 +790,7 @@ class AbsInt:
                             var = 'otherwise:' + '|'.join(rest)
                             if len(rest) == 1:
                                 var = rest[0]
-                        np.constraints.append((('variant', v[1], v[2]), var, b))
+                        np.constraints.append((('variant', v[1], v[2], v[3]), var, b))
                         if var and not var.startswith('otherwise:'):
                             # remember the variant of that place for later discriminant reads
                             old = np.env.get(v[1])
